@@ -274,7 +274,7 @@ def main(argv=None):
                   "attribute values: all integers in [0,2^256); values congruent to 0 modulo r count as unset", "negative statements in the generic-group sense (T9)"]
     chk.trusted = ["group layer specification (C01, C05-C08)", "z3"]
     # lower layers whose specifications this check relies on: their obligations are part of this check's claim (framework.Check.include)
-    for dep in ['C06', 'C02', 'C03', 'C04', 'C05', 'C07', 'C01', 'C08', 'C10', 'C19']:
+    for dep in ['C06', 'C02', 'C03', 'C04', 'C05', 'C07', 'C01', 'C08', 'C10', 'C19', 'C20']:
         chk.include(dep)
     # the statements start from an arbitrary well-formed key; that the key-producing operations return exactly such keys (the induction step
     # over delegation histories) is C11's claim, and part of this one
